@@ -113,6 +113,32 @@ def host_block(prop="C07"):
         from pyvc.engine import map_or, map_ite
         return z3.And(h == map_or(lh, hh), val == map_ite(lh, lv, hv))
 
+    def args_seq(e):
+        l = SList(sel(H(e, "args"), par(e)), "ref")
+        return z3.If(phas(e, "args"), e.heap.list_get(l), z3.Empty(z3.SeqSort(I)))
+
+    def host_and_dummies(e, upto=None):
+        """the host's variable table overlaid by the host's dummy arguments (first `upto` of them)"""
+        bh, bv = host(e, "all_vars")
+        aseq = args_seq(e)
+        n = z3.Length(aseq) if upto is None else upto
+        return FH(aseq, n, bh, H(e, "name")), FV(aseq, n, bv, H(e, "name"))
+
+    def vars_base(e):
+        """... and by the host's result variable: everything a contained scope sees by host association"""
+        ah, av = host_and_dummies(e)
+        rv = z3.If(phas(e, "retvar"), sel(H(e, "retvar"), par(e)), 0)
+        key = LOWER(sel(H(e, "name"), rv))
+        return z3.If(rv != 0, z3.Store(ah, key, True), ah), z3.If(rv != 0, z3.Store(av, key, rv), av)
+
+    def vars_done(v, upto=None):
+        e = E(v)
+        h, val = cur(v, "all_vars")
+        bh, bv = vars_base(e)
+        seq = lst(e, "variables", e.self)
+        n = z3.Length(seq) if upto is None else upto
+        return z3.And(h == FH(seq, n, bh, H(e, "name")), val == FV(seq, n, bv, H(e, "name")))
+
     def mk_loop(i):
         tab, lname = TABLES[i]
 
@@ -131,45 +157,41 @@ def host_block(prop="C07"):
             invs.append((f"earlier_{TABLES[j][0]}", lambda v, j=j: table_done(v, *TABLES[j])))
             invs.append((f"field_{TABLES[j][0]}", lambda v, j=j: z3.BoolVal(True)))
         c.loop(i, invariants=invs, unfold=unfold, variant=lambda v: z3.Length(v.it.seq) - v.k)
-    for i in range(3):
+    for i in range(2):
         mk_loop(i)
+    earlier = [(f"earlier_{t}", lambda v, t=t, l=l: table_done(v, t, l)) for t, l in TABLES[:2]]
 
-    # loop 3: parent's args folded on top of the variables table
-    def args_seq(e):
-        l = SList(sel(H(e, "args"), par(e)), "ref")
-        return z3.If(phas(e, "args"), e.heap.list_get(l), z3.Empty(z3.SeqSort(I)))
-
-    def vars_base(e):
-        return folded(e, "all_vars", "variables")
-
+    # loop 2: the host's dummy arguments folded on top of the host's variable table
     def inv_args(v):
         e = E(v)
         h, val = cur(v, "all_vars")
-        bh, bv = vars_base(e)
-        return z3.And(h == FH(v.it.seq, v.k, bh, H(e, "name")), val == FV(v.it.seq, v.k, bv, H(e, "name")), v.it.seq == args_seq(e))
+        ah, av = host_and_dummies(e, v.k)
+        return z3.And(h == ah, val == av, v.it.seq == args_seq(e))
 
     def unfold_args(v):
         e = E(v)
-        bh, bv = vars_base(e)
+        bh, bv = host(e, "all_vars")
         return fold_unfold(v.it.seq, v.k, bh, bv, H(e, "name"))
-    c.loop(3, invariants=[("vars_table_is_fold_prefix", inv_args), ("frame", frame_ok)] +
-           [(f"earlier_{t}", lambda v, t=t, l=l: table_done(v, t, l)) for t, l in TABLES[:2]],
+    c.loop(2, invariants=[("vars_table_is_fold_prefix_of_host_dummies", inv_args), ("frame", frame_ok)] + earlier,
            unfold=unfold_args, variant=lambda v: z3.Length(v.it.seq) - v.k)
+
+    # loop 3: the unit's own variables on top of everything accessible by host association (Fortran: a local declaration hides the host's entity of that name)
+    def inv_vars(v):
+        e = E(v)
+        return z3.And(vars_done(v, v.k), v.it.seq == lst(e, "variables", e.self))
+
+    def unfold_vars(v):
+        e = E(v)
+        bh, bv = vars_base(e)
+        return fold_unfold(lst(e, "variables", e.self), v.k, bh, bv, H(e, "name"))
+    c.loop(3, invariants=[("vars_table_is_fold_prefix_of_locals", inv_vars), ("frame", frame_ok)] + earlier,
+           unfold=unfold_vars, variant=lambda v: z3.Length(v.it.seq) - v.k)
 
     # ---- postconditions
     for tab, lname in TABLES[:2]:
         c.ensures(f"{tab}_is_host_overlaid_by_locals", lambda v0, res, v1, tab=tab, lname=lname: table_done(v1, tab, lname))
 
-    def vars_post(v0, res, v1):
-        e = v0
-        h, val = cur(v1, "all_vars")
-        bh, bv = vars_base(e)
-        aseq = args_seq(e)
-        ah, av = FH(aseq, z3.Length(aseq), bh, H(e, "name")), FV(aseq, z3.Length(aseq), bv, H(e, "name"))
-        rv = z3.If(phas(e, "retvar"), sel(H(e, "retvar"), par(e)), 0)
-        key = LOWER(sel(H(e, "name"), rv))
-        return z3.And(h == z3.If(rv != 0, z3.Store(ah, key, True), ah), val == z3.If(rv != 0, z3.Store(av, key, rv), av))
-    c.ensures("all_vars_is_host_overlaid_by_locals_then_host_dummies", vars_post)
+    c.ensures("all_vars_is_host_and_host_dummies_overlaid_by_locals", lambda v0, res, v1: vars_done(v1))
     c.ensures("all_procs_locals_win_over_host", lambda v0, res, v1: procs_done(v1))
     for f in ALLT:
         def fr(v0, res, v1, f=f):
